@@ -398,8 +398,20 @@ def malformed_cases(rng, n):
     return out
 
 
+def sig(c):
+    import hashlib
+    return hashlib.sha1(repr((c["patterns"], c["aliases"], c["input"], c["expect"])).encode()).hexdigest()[:12]
+
+
 def gen_cases(run, n):
     rng = run.rng
+    cases = _gen_cases(rng, n)
+    for c in cases:
+        c["sig"] = sig(c)      # the expectation belongs to exactly this rule set and input (a shrunk case loses it)
+    return cases
+
+
+def _gen_cases(rng, n):
     return (literal_cases(rng, n * 25 // 100) + rule_cases(rng, n * 35 // 100) + ambiguous_cases(rng, n * 15 // 100)
             + cycle_cases(rng, n // 10) + malformed_cases(rng, n * 15 // 100))
 
@@ -454,7 +466,8 @@ def to_coq(case, out):
         raise ValueError("parse_groks (VRL) and parse_grok (API) disagree: %r" % (out,))
     return "mkCase [%s] [%s] %s %s %s" % (
         "; ".join("(%s, %s)" % (coq_hex(k), coq_hex(v)) for k, v in case["aliases"]),
-        "; ".join(coq_hex(p) for p in case["patterns"]), coq_hex(case["input"]), coq_out(out), coq_expect(case["expect"]))
+        "; ".join(coq_hex(p) for p in case["patterns"]), coq_hex(case["input"]), coq_out(out),
+        coq_expect(case["expect"] if case.get("sig") == sig(case) else ["none"]))
 
 
 def known_matcher(entry, case, out):
@@ -488,6 +501,6 @@ def extra_cov(cases, outs):
 
 def main(run, args):
     import checklib
-    n = args.cases or (3000 if run.tier == "quick" else 60000)
+    n = args.cases or (2000 if run.tier == "quick" else 40000)
     return checklib.standard(run, ID, THEOREMS, IMPORTS, "grok", gen_cases, to_coq, n, nontrivial=nontrivial,
                              replay=args.replay, known_matcher=known_matcher, extra_cov=extra_cov)
